@@ -74,6 +74,8 @@ def solve_and_judge(case, which, in_situ=True):
     for opt, on in case.get('build_opts', {}).items():
         if on:
             rec.count('models.judged.with_' + opt)
+    if getattr(b, 'weightings_reused', 0):
+        rec.count('models.judged.with_portfolio_rule_object_shared_by_households')
     if any(z['gov'].get('asset_markets_in') and z['gov'].get('deposits') for z in spec['zones']):
         rec.count('models.judged.with_deposit_market_away_from_its_issuer')
     if spec['imports'] and case.get('build_opts', {}).get('interleave_model'):
@@ -106,7 +108,7 @@ def gen_case(rng, idx, tier, emphasis=None):
         spec = M.gen_spec(rng, n_zones=3, maxtime=4)
     elif r == 6:
         # a federation whose asset markets are declared in a region, the issuer in the central country
-        spec = M.gen_federation_with_region_asset_markets(rng)
+        spec = M.gen_federation_with_region_asset_markets(rng, all_tobin=(idx % 16 == 6))
     else:
         spec = M.gen_spec(rng)
     return {'kind': 'model', 'spec': spec, 'ext_first': rng.random() < 0.7,
